@@ -236,6 +236,12 @@ async fn run_case(out: &mut Out, case: Case, fixed: bool) {
         events.extend(h.await.expect("client task"));
     }
     events.sort_by_key(|e| e.stamp);
+    judge(out, events, case.class, case.n, case.programs.len(), fixed, None);
+}
+
+/// hand one stamped history to the verified checker (op lines) and to the independent oracle.
+/// `wrong` = a direct "reply does not match the request" observation of the caller, if any.
+fn judge(out: &mut Out, events: Vec<Event>, class: &'static str, n: usize, clients: usize, fixed: bool, wrong: Option<String>) {
     // lines for the verified checker
     out.op("NEW".into(), "ok".into());
     let mut text = Vec::new();
@@ -268,29 +274,151 @@ async fn run_case(out: &mut Out, case: Case, fixed: bool) {
     }
     let lin = bad_keys.is_empty();
     out.op("CHECK".into(), if lin { "lin".into() } else { "not-lin".into() });
-    out.count(&format!("class:{}", case.class));
-    out.count(&format!("shards:{}", case.n));
-    out.count(&format!("clients:{}", case.programs.len()));
+    out.count(&format!("class:{}", class));
+    out.count(&format!("shards:{}", n));
+    out.count(&format!("clients:{}", clients));
     out.count(if overlap { "history:with-overlapping-ops" } else { "history:sequential" });
     out.count(if lin { "verdict:lin" } else { "verdict:not-lin" });
-    out.count_n("ops", (events.len() / 2) as u64);
-    if !lin {
-        let explained = case.class == "mixed" && case.n > 1 && bad_keys.iter().all(|k| mismatched(k, case.n, fixed));
-        let sig = if explained { "C02:route-hash-mismatch".to_string() } else { format!("C02:not-linearizable:{}:shards={}", case.class, case.n) };
+    out.count_n("ops", events.iter().filter(|e| e.inv.is_some()).count() as u64);
+    let pending = events.iter().filter(|e| e.inv.is_some()).count() - events.iter().filter(|e| e.res.is_some()).count();
+    out.count_n("ops:pending(abandoned)", pending as u64);
+    if let Some(w) = &wrong {
+        out.violation(
+            "C02:reply-to-wrong-requester",
+            &format!("{} shards, {} clients: {}", n, clients, w),
+            json!({"shards": n, "class": class, "history": text, "not_linearizable_keys": bad_keys.iter().map(|k| String::from_utf8_lossy(k).to_string()).collect::<Vec<_>>()}),
+        );
+    } else if !lin {
+        let explained = class == "mixed" && n > 1 && bad_keys.iter().all(|k| mismatched(k, n, fixed));
+        let sig = if explained { "C02:route-hash-mismatch".to_string() } else { format!("C02:not-linearizable:{}:shards={}", class, n) };
         out.violation(
             &sig,
             &format!(
                 "{} shards, {} clients: the history of key(s) {} admits no linearization",
-                case.n,
-                case.programs.len(),
+                n,
+                clients,
                 bad_keys.iter().map(|k| String::from_utf8_lossy(k).to_string()).collect::<Vec<_>>().join(",")
             ),
-            json!({"shards": case.n, "class": case.class, "history": text}),
+            json!({"shards": n, "class": class, "history": text}),
         );
     }
-    out.case(&text.join(";"), overlap && writes);
-    out.sample(json!({"shards": case.n, "class": case.class, "clients": case.programs.len(), "history": text.iter().take(16).collect::<Vec<_>>()}));
+    out.case(&text.join(";"), (overlap && writes) || pending > 0);
+    out.sample(json!({"shards": n, "class": class, "clients": clients, "history": text.iter().take(16).collect::<Vec<_>>()}));
 }
+
+/// Cancellation: a shard is kept busy by a slow script; pooled requests to that shard are
+/// ABANDONED while queued (their futures are dropped by a timeout); then several clients, each the
+/// single writer of a private key, run `pooled_fast_set k v; pooled_fast_get k` rounds — more
+/// pooled acquisitions than the shared pool has slots, during and after the stall.  Every reply
+/// must be the reply of ITS request; the abandoned operations stay pending in the history.
+async fn cancel_case(out: &mut Out, rng: &mut Rng, fixed: bool, corpus: bool) {
+    use redis_sim::redis::Command;
+    let n = 4usize;
+    let st = Arc::new(new_state(n));
+    let clock = Arc::new(AtomicU64::new(1));
+    let mut events: Vec<Event> = Vec::new();
+    let busy: Vec<u8> = b"busy:key".to_vec();
+    let busy_shard = h_bytes(&busy, n);
+    let stamp_op = |clock: &AtomicU64| clock.fetch_add(1, Ordering::SeqCst);
+    // the busy shard holds a value nobody else writes
+    {
+        let op = Op::kv("FSET", &busy, b"busy-shard-private-value");
+        let id = stamp_op(&clock);
+        let r = apply(&st, &op).await;
+        let done = stamp_op(&clock);
+        events.push(Event { stamp: id, id, inv: Some(op), res: None });
+        events.push(Event { stamp: done, id, inv: None, res: Some(r) });
+    }
+    // 1. keep that shard occupied (EVAL is routed by KEYS[1]); not part of the history
+    let iters = if corpus { 30_000_000u64 } else { rng.range(15, 40) * 1_000_000 };
+    let slow = Command::Eval {
+        script: format!("local x = 0 for i = 1, {} do x = x + 1 end return x", iters),
+        keys: vec![String::from_utf8(busy.clone()).unwrap()],
+        args: vec![],
+    };
+    let stall = {
+        let st = st.clone();
+        tokio::spawn(async move { st.execute(&slow).await })
+    };
+    tokio::time::sleep(std::time::Duration::from_millis(40)).await;
+    // 2. pooled requests to the busy shard, given up while queued
+    let same_shard: Vec<Vec<u8>> = (0..200).map(|i| format!("ab:{}", i).into_bytes()).filter(|k| h_bytes(k, n) == busy_shard && (fixed || h_str(std::str::from_utf8(k).unwrap(), n) == busy_shard)).take(3).collect();
+    let mut abandoned_ops = vec![Op::k("PGET", &busy)];
+    let extra = if corpus { 2 } else { rng.below(3) as usize };
+    for k in same_shard.iter().take(extra) {
+        abandoned_ops.push(if rng.chance(1, 2) { Op::kv("PSET", k, b"zz") } else { Op::k("PGET", k) });
+    }
+    let mut abandoned = 0;
+    for op in abandoned_ops {
+        let id = stamp_op(&clock);
+        let r = tokio::time::timeout(std::time::Duration::from_millis(8), apply(&st, &op)).await;
+        events.push(Event { stamp: id, id, inv: Some(op), res: None });
+        match r {
+            Ok(reply) => {
+                let done = stamp_op(&clock);
+                events.push(Event { stamp: done, id, inv: None, res: Some(reply) });
+            }
+            Err(_) => abandoned += 1,
+        }
+    }
+    out.count_n("cancel:requests-abandoned-while-queued", abandoned);
+    // 3. single-writer clients on private keys, pooled path, during and after the stall
+    let clients = if corpus { 8 } else { rng.range(4, 8) as usize };
+    let rounds = if corpus { 6 } else { rng.range(5, 8) as usize };
+    let keys: Vec<Vec<u8>> = (0..clients).map(|c| format!("own:{}", c).into_bytes()).collect();
+    let mut wrong: Option<String> = None;
+    for phase in 0..2 {
+        let mut handles = Vec::new();
+        for (c, k) in keys.iter().enumerate() {
+            let (st, clock, k) = (st.clone(), clock.clone(), k.clone());
+            handles.push(tokio::spawn(async move {
+                let mut evs = Vec::new();
+                let mut wrong: Option<String> = None;
+                for r in 0..rounds {
+                    let v = format!("c{}p{}r{}", c, phase, r).into_bytes();
+                    for op in [Op::kv("PSET", &k, &v), Op::k("PGET", &k)] {
+                        let id = clock.fetch_add(1, Ordering::SeqCst);
+                        let reply = apply(&st, &op).await;
+                        let done = clock.fetch_add(1, Ordering::SeqCst);
+                        let expected = if op.name == "PSET" { "ok".to_string() } else { format!("b:{}", hex(&v)) };
+                        if reply != expected && wrong.is_none() {
+                            wrong = Some(format!("client {} sent `{}` and received {} (its own request can only answer {})", c, op.line(), reply, expected));
+                        }
+                        evs.push(Event { stamp: id, id, inv: Some(op), res: None });
+                        evs.push(Event { stamp: done, id, inv: None, res: Some(reply) });
+                    }
+                }
+                (evs, wrong)
+            }));
+        }
+        for h in handles {
+            let (evs, w) = h.await.expect("client task");
+            events.extend(evs);
+            if wrong.is_none() {
+                wrong = w;
+            }
+        }
+        if phase == 0 {
+            // the script ends (the shard then answers the abandoned messages) before phase 2
+            while !stall.is_finished() {
+                tokio::time::sleep(std::time::Duration::from_millis(5)).await;
+            }
+        }
+    }
+    // late reads of the keys the abandoned requests touched
+    for k in std::iter::once(&busy).chain(same_shard.iter().take(extra)) {
+        let op = Op::k("PGET", k);
+        let id = stamp_op(&clock);
+        let r = apply(&st, &op).await;
+        let done = stamp_op(&clock);
+        events.push(Event { stamp: id, id, inv: Some(op), res: None });
+        events.push(Event { stamp: done, id, inv: None, res: Some(r) });
+    }
+    events.sort_by_key(|e| e.stamp);
+    judge(out, events, "cancel", n, clients + 1, fixed, wrong);
+}
+
+
 
 pub fn run(a: &Args) {
     let mut out = Out::new(&a.out);
@@ -309,11 +437,16 @@ pub fn run(a: &Args) {
         };
         out.extra.insert("hash_key_delegates_to_hash_key_bytes".into(), json!(fixed));
         run_case(&mut out, corpus(fixed), fixed).await;
-        for _ in 0..a.n {
+        // cancellations: the fixed case first, then a few random ones
+        cancel_case(&mut out, &mut Rng::new(0xC02), fixed, true).await;
+        for i in 0..a.n {
             let mut r = rng.fork();
             let c = random_case(&mut r, fixed);
             run_case(&mut out, c, fixed).await;
+            if i % 4000 == 1999 {
+                cancel_case(&mut out, &mut r, fixed, false).await;
+            }
         }
     });
-    out.finish("case = one concurrent history: 2..8 client tasks (multi-thread tokio runtime, seeded random yields) issue 6..12 single-key string commands per key over 1..3 keys through execute / fast_* / pooled_fast_* of a real ShardedActorState with 1, 2 or 4 shards; invocation/response stamped by a global atomic counter. Schedules are SAMPLED (the seed fixes programs and yield patterns, not the interleaving). distinct by the stamped history text; non-trivial iff two operations on one key overlap in real time and the key is written");
+    out.finish("case = one concurrent history: 2..8 client tasks (multi-thread tokio runtime, seeded random yields) issue 6..12 single-key string commands per key over 1..3 keys through execute / fast_* / pooled_fast_* of a real ShardedActorState with 1, 2 or 4 shards; invocation/response stamped by a global atomic counter. Schedules are SAMPLED (the seed fixes programs and yield patterns, not the interleaving). plus cancellation histories (a slow script keeps one shard busy, pooled requests to it are abandoned by a timeout while queued and stay pending, then 4..8 single-writer clients run > pool-size pooled SET/GET rounds during and after the stall; every reply is also checked directly against its request). distinct by the stamped history text; non-trivial iff two operations on one key overlap in real time and the key is written, or an operation was abandoned");
 }
